@@ -577,6 +577,75 @@ def gen_zone(rng):
     return (-60 * std, -60 * std, 0)
 
 
+def all_notations():
+    out = []
+    for date in cm.EXT_DATES + cm.BAS_DATES:
+        for ystyle in ("ccyy", "x"):
+            out.append({"date": date, "ystyle": ystyle, "time": None,
+                        "dec": None, "zone": None})
+            for time in cm.TIMES:
+                for zone in ("Z", "hhmm", "hh", None):
+                    for dec in ((",", ".") if time.endswith("dec")
+                                else (",",)):
+                        out.append({"date": date, "ystyle": ystyle,
+                                    "time": time, "dec": dec, "zone": zone})
+    for date in cm.REDUCED:
+        for ystyle in (("ccyy",) if date == "c" else ("ccyy", "x")):
+            out.append({"date": date, "ystyle": ystyle, "time": None,
+                        "dec": None, "zone": None})
+    return out
+
+
+def point_step(rng, notation, mode, cal_opt, env_cal, utc, offsets):
+    w = gen_written(rng, mode, notation, p_invalid=0)
+    spec = {"kind": "point", "src": "arg", "notation": notation,
+            "written": w, "text": written_text(notation, w),
+            "offsets": offsets, "utc": utc, "cal": cal_opt}
+    groups = common_options(rng, spec, None)
+    og, flags = spell_offsets(rng, offsets)
+    spec["flags"] = flags
+    step = {"k": "inv", "env": {"cal": env_cal, "ref": None}, "stdin": None,
+            "spec": spec, "argv": assemble(rng, [spec["text"]], groups + og)}
+    return step
+
+
+NOTATIONS_PER_TRACE = 10
+
+
+def gen_directed(rng, index):
+    """Directed family: every documented notation (date form x year style x
+    time form x decimal sign x zone form), each printed back unshifted, shifted
+    by an exact offset, and shifted by a month/year offset under --utc --
+    notation preservation is checked for ALL notations in every run."""
+    notations = all_notations()
+    n_chunks = (len(notations) + NOTATIONS_PER_TRACE - 1) // (
+        NOTATIONS_PER_TRACE)
+    chunk = index % n_chunks
+    variant = index // n_chunks
+    mode_plan = [("gregorian", None, None), ("360day", "360day", None),
+                 ("365_day", None, "365_day"), ("366day", "366day", "360day")]
+    mode, cal_opt, env_cal = mode_plan[variant % len(mode_plan)]
+    steps = []
+    for notation in notations[chunk * NOTATIONS_PER_TRACE:
+                              (chunk + 1) * NOTATIONS_PER_TRACE]:
+        steps.append(point_step(rng, notation, mode, cal_opt, env_cal,
+                                False, []))
+        steps.append(point_step(rng, notation, mode, cal_opt, env_cal,
+                                rng.random() < 0.3,
+                                [gen_offset(rng, notation["time"], False)]))
+        steps.append(point_step(rng, notation, mode, cal_opt, env_cal, True,
+                                [gen_offset(rng, notation["time"], False),
+                                 {"text": rng.choice(["P1M", "-P1Y", "P1Y1M"]),
+                                  "us": None}]))
+        if mode != "gregorian":
+            steps.append({"k": "host", "act": "set_mode",
+                          "sp": rng.choice(model.SPELLINGS)})
+    return {"property": PROP, "kind": "directed", "index": index,
+            "zones": [[0, 0, 0], [-19800, -19800, 0], [12600, 9000, 1]],
+            "cur": variant % 3, "isdst": variant % 2,
+            "start_us": 946684800 * 10 ** 6, "steps": steps}
+
+
 def gen_random(rng, index):
     zones = [gen_zone(rng) for _ in range(3)]
     start = rng.choice([946684800, 1700000000, 86400 * 59,
@@ -1279,6 +1348,8 @@ def check_trace(trace):
 def make_trace(job):
     kind, seed, index = job
     rng = kernel.run_rng(PROP, seed, index, kind)
+    if kind == "directed":
+        return gen_directed(rng, index)
     return gen_random(rng, index)
 
 
@@ -1332,8 +1403,12 @@ def replace_step(trace, i, step):
 
 
 def jobs_for(tier, seed):
+    n_chunks = (len(all_notations()) + NOTATIONS_PER_TRACE - 1) // (
+        NOTATIONS_PER_TRACE)
+    n_dir = n_chunks * (2 if tier == "quick" else 16)
     n = 2500 if tier == "quick" else 80000
-    return [("random", seed, i) for i in range(n)]
+    return [("directed", seed, i) for i in range(n_dir)] + [
+        ("random", seed, i) for i in range(n)]
 
 
 def extra_coverage(agg):
